@@ -107,6 +107,8 @@ impl Database {
             #[cfg(jiff_verif)]
             crate::verif::acquire_read(&self.zones, "cc.get.zones_read");
             let zones = self.zones.read().unwrap();
+            #[cfg(jiff_verif)]
+            crate::verif::point("cc.get.zones_read_held");
             if let Some(czone) = zones.get(query) {
                 if !czone.is_expired() {
                     trace!(
